@@ -2,6 +2,11 @@
 
 package runner
 
+// C13 (determinism): every function below belongs to it - its effect clause (no random, clock or environment
+// effect beyond the declared ones), frame, call preconditions and loop invariants are proved for every iteration
+// order of every map it ranges over.
+//@ fileprops C13
+
 // Contracts for the deductive verifier in /verif (govc).  This file contains comments only;
 // it is compiled only with -tags verif and declares nothing.
 
